@@ -469,6 +469,12 @@ func (h *Hub) topicUnreg(sess *Session, topic string, msg *ClientComMessage, rea
 				return err
 			}
 
+			if len(subs) == 0 && !strings.HasPrefix(topic, "p2p") {
+				// No subscribers and not a p2p topic: nothing to delete. The name may be ill-formed,
+				// it must not be parsed (topicCat panics on unknown names).
+				sess.queueOut(InfoNoActionReply(msg, now))
+				return nil
+			}
 			tcat := topicCat(topic)
 			if len(subs) == 0 {
 				if tcat == types.TopicCatP2P {
